@@ -1,20 +1,125 @@
 /-
   C05 — ECB/CBC/CTR/CTS modes follow SP 800-38A and decrypt what they encrypt.
-  ONLY property theorems (and their non-vacuity examples) live here; helper lemmas are in Proofs/Lemmas.
--/
-import Model.Mode
-import Spec.Mode
-namespace Proofs.C05
-open Model Model.Mode
+  ONLY property theorems (and their non-vacuity examples) live here; helper lemmas are in Proofs/Lemmas/Mode*.lean.
 
-/-- CTR decryption is CTR encryption whenever it returns -/
-theorem ctr_dec_eq_enc (c : BlockCipher) (iv : Option (List Nat)) (C P : List Nat)
-    (h : CTR.dec c iv C = .ok P) : CTR.enc c iv C = .ok P := by
-  unfold CTR.dec at h
-  split at h
-  · cases h
-  · split at h
-    · cases h
-    · cases h; assumption
+  Setting.  `Model.Mode` mirrors crysp/mode.py over an abstract block cipher `c : Model.BlockCipher`
+  (any object with blocksize/enc/dec).  `Implements c k` (Proofs/Lemmas/ModeL.lean) says that on byte blocks of
+  c.len bytes `c.enc`/`c.dec` return the values of the total functions `k.E`/`k.D` of the Spec cipher `k`, that
+  these map byte blocks to byte blocks and are mutually inverse.  C03 supplies this for AES, DES, TDEA, Serpent and
+  Threefish, so every theorem below holds for every cipher of the library, every key (hidden in `c`, `k`), every
+  IV / counter block and every message in the mode's domain.
+  `Bytes M`: all elements < 256 (M is a Python `bytes`).  `PadDom s l M`: the admissible (padding, message) pairs:
+  PKCS#7 / X9.23 need l < 256, no padding needs a non-empty block multiple.  `CtrDom l iv`: the counter argument is an
+  l-byte string, or None with an even block length (the default counter is two halves of ⌊l/2⌋ bytes).
+-/
+import Proofs.Lemmas.ModeCts
+import Proofs.Lemmas.ModeToy
+namespace Proofs.C05
+open Model Model.Mode Proofs.Lemmas.ModeL
+
+variable {c : BlockCipher} {k : Spec.Mode.Cipher}
+
+/-! ### SP 800-38A equalities -/
+
+/-- ECB.enc is the SP 800-38A ECB encryption of the padded message -/
+theorem ecb_spec (h : Implements c k) (s : Spec.ModePad.Scheme) (M : List Nat) (hM : Bytes M) (hd : PadDom s c.len M) :
+    ECB.enc c (toModel s) M = .ok (Spec.Mode.ecb k s M) :=
+  ecb_enc_of h s M (padFacts s c.len h.len_pos M hd hM)
+
+/-- CBC.enc is the IV followed by the SP 800-38A CBC chain of the padded message -/
+theorem cbc_spec (h : Implements c k) (iv : List Nat) (hiv : IsBlock c.len iv) (s : Spec.ModePad.Scheme) (M : List Nat)
+    (hM : Bytes M) (hd : PadDom s c.len M) :
+    CBC.enc c iv (toModel s) M = .ok (Spec.Mode.cbc k iv s M) :=
+  cbc_enc_of h iv hiv s M (padFacts s c.len h.len_pos M hd hM)
+
+/-! ### decryption inverts encryption (with an equally configured object in any padding state `st`) -/
+
+theorem ecb_dec_enc (h : Implements c k) (s : Spec.ModePad.Scheme) (M : List Nat) (hM : Bytes M) (hd : PadDom s c.len M)
+    (st : PadState) :
+    (ECB.enc c (toModel s) M).bind (fun C => ECB.dec c (toModel s) C st) = .ok M := by
+  rw [ecb_spec h s M hM hd]
+  exact ecb_dec_of h s M (padFacts s c.len h.len_pos M hd hM) st
+
+theorem cbc_dec_enc (h : Implements c k) (iv : List Nat) (hiv : IsBlock c.len iv) (s : Spec.ModePad.Scheme) (M : List Nat)
+    (hM : Bytes M) (hd : PadDom s c.len M) (st : PadState) :
+    (CBC.enc c iv (toModel s) M).bind (fun C => CBC.dec c iv (toModel s) C st) = .ok M := by
+  rw [cbc_spec h iv hiv s M hM hd]
+  exact cbc_dec_of h iv hiv s M (padFacts s c.len h.len_pos M hd hM) st
+
+/-- CTR: every message length, every admissible counter argument -/
+theorem ctr_dec_enc (h : Implements c k) (iv : Option (List Nat)) (hiv : CtrDom c.len iv) (M : List Nat) :
+    (CTR.enc c iv M).bind (CTR.dec c iv) = .ok M := by
+  obtain ⟨d, hd, _, hT, he⟩ := ctr_enc_keystream h iv hiv M
+  have hks : ∀ n, (keystream k (modelT d) 0 n).length = n * c.len :=
+    fun n => keystream_length k (modelT d) c.len (fun i => (h.E_block _ (hT i)).1) n 0
+  have hle : M.length ≤ (keystream k (modelT d) 0 ((M.length - 1) / c.len + 1)).length := by
+    rw [hks]
+    obtain ⟨h1, h2, _, _, _⟩ := last_piece M.length c.len h.len_pos
+    rw [Nat.succ_mul]; omega
+  have hlen : (xorstr M (keystream k (modelT d) 0 ((M.length - 1) / c.len + 1))).length = M.length := by
+    rw [xor_length]; exact Nat.min_eq_left hle
+  obtain ⟨d', hd', _, _, he'⟩ := ctr_enc_keystream h iv hiv (xorstr M (keystream k (modelT d) 0 ((M.length - 1) / c.len + 1)))
+  have : d' = d := by rw [hd] at hd'; cases hd'; rfl
+  subst this
+  rw [he]
+  simp only [Except.bind, CTR.dec, he', hlen]
+  rw [xor_length, Nat.min_eq_left (by rw [hlen]; exact hle), hlen, if_neg (by simp), xor_cancel_right _ _ hle]
+
+theorem cts_ecb_dec_enc (h : Implements c k) (M : List Nat) (hM : Bytes M) (hlen : c.len ≤ M.length) :
+    (CTS_ECB.enc c .no M).bind (CTS_ECB.dec c .no) = .ok M := by
+  obtain ⟨C, he, _, hd⟩ := cts_ecb_all h M hM hlen
+  rw [he]; exact hd
+
+theorem cts_cbc_dec_enc (h : Implements c k) (iv : List Nat) (hiv : IsBlock c.len iv) (M : List Nat) (hM : Bytes M)
+    (hlen : c.len ≤ M.length) :
+    (CTS_CBC.enc c iv .no M).bind (CTS_CBC.dec c iv .no) = .ok M := by
+  obtain ⟨C, he, _, _, hd⟩ := cts_cbc_all h iv hiv M hM hlen
+  rw [he]; exact hd
+
+/-! ### length laws -/
+
+/-- |CTR.enc(M)| = |M| -/
+theorem ctr_length (h : Implements c k) (iv : Option (List Nat)) (hiv : CtrDom c.len iv) (M : List Nat) :
+    ∃ C, CTR.enc c iv M = .ok C ∧ C.length = M.length := by
+  obtain ⟨d, _, _, hT, he⟩ := ctr_enc_keystream h iv hiv M
+  refine ⟨_, he, ?_⟩
+  rw [xor_length, keystream_length k (modelT d) c.len (fun i => (h.E_block _ (hT i)).1)]
+  obtain ⟨h1, h2, _, _, _⟩ := last_piece M.length c.len h.len_pos
+  apply Nat.min_eq_left
+  rw [Nat.succ_mul]; omega
+
+/-- |CTS_ECB.enc(M)| = |M| -/
+theorem cts_ecb_length (h : Implements c k) (M : List Nat) (hM : Bytes M) (hlen : c.len ≤ M.length) :
+    ∃ C, CTS_ECB.enc c .no M = .ok C ∧ C.length = M.length := by
+  obtain ⟨C, he, hl, _⟩ := cts_ecb_all h M hM hlen
+  exact ⟨C, he, hl⟩
+
+/-- |CTS_CBC.enc(M)| = |M| + len, and the output starts with the IV -/
+theorem cts_cbc_length (h : Implements c k) (iv : List Nat) (hiv : IsBlock c.len iv) (M : List Nat) (hM : Bytes M)
+    (hlen : c.len ≤ M.length) :
+    ∃ C, CTS_CBC.enc c iv .no M = .ok C ∧ C.length = M.length + c.len ∧ C.take c.len = iv := by
+  obtain ⟨C, he, hl, hiv', _⟩ := cts_cbc_all h iv hiv M hM hlen
+  exact ⟨C, he, hl, hiv'⟩
+
+/-! ### non-vacuity: the hypotheses are inhabited by a non-trivial instance -/
+
+/-- a concrete permutation cipher on 8-byte blocks satisfying `Implements` (for every block length n ≥ 1 and n-byte key:
+    `Proofs.Lemmas.ModeL.toy_rot_implements`) -/
+example : Implements (Toy.rot 8 [1, 2, 3, 4, 5, 6, 7, 250]) ⟨8, Toy.rotEncF [1, 2, 3, 4, 5, 6, 7, 250], Toy.rotDecF [1, 2, 3, 4, 5, 6, 7, 250]⟩ :=
+  toy_rot_implements 8 (by decide) _ ⟨rfl, by unfold Bytes; decide⟩
+
+/-- the domains are inhabited: a 13-byte message under every padding scheme with 8-byte blocks, a 16-byte one without -/
+example : PadDom .pkcs7 8 (List.replicate 13 7) ∧ PadDom .x923 8 (List.replicate 13 7) ∧ PadDom .bit 8 (List.replicate 13 7)
+    ∧ PadDom .none 8 (List.replicate 16 7) ∧ Bytes (List.replicate 13 7) := by
+  refine ⟨by show 8 < 256; decide, by show 8 < 256; decide, trivial, by show 16 % 8 = 0 ∧ 0 < 16; decide,
+    Bytes.replicate (by decide)⟩
+
+example : CtrDom 8 none ∧ CtrDom 8 (some [0, 0, 0, 1, 255, 255, 255, 255]) ∧ IsBlock 8 [9, 8, 7, 6, 5, 4, 3, 2] := by
+  refine ⟨by show 8 % 2 = 0; decide, ⟨rfl, by unfold Bytes; decide⟩, ⟨rfl, by unfold Bytes; decide⟩⟩
+
+/-- the theorems compute: the toy cipher in CBC with PKCS#7 on a 3-byte message -/
+example : CBC.enc (Toy.rot 4 [1, 2, 3, 4]) [9, 9, 9, 9] .pkcs7 [65, 66, 67]
+    = .ok (Spec.Mode.cbc ⟨4, Toy.rotEncF [1, 2, 3, 4], Toy.rotDecF [1, 2, 3, 4]⟩ [9, 9, 9, 9] .pkcs7 [65, 66, 67]) := by
+  rfl
 
 end Proofs.C05
